@@ -120,6 +120,52 @@ def nz_facts(cond, truth, cursors, aliases=None):
     return set()
 
 
+_UNCOND = {}
+
+
+def unconditional_read(g, j):
+    """largest constant k such that g reads P_j[k] before any branch (its first basic block): a caller must know the k bytes in
+    front of it to be non-NUL.  None if there is no such read."""
+    key = (id(g), j)
+    if key in _UNCOND:
+        return _UNCOND[key]
+    _UNCOND[key] = None
+    if g.body is None or g.cfg is None or j >= len(g.params):
+        return None
+    pd = g.params[j]["d"]
+    cfg = nullness.prepared_cfg(g, set())
+    best = None
+    b = cfg.blocks.get(cfg.entry)
+    seen = set()
+    # follow the straight-line prefix (blocks with a single successor) from the entry
+    while b is not None and b.id not in seen:
+        seen.add(b.id)
+        for e in b.el:
+            n = g.nodes.get(e)
+            if n is None:
+                continue
+            k = None
+            if n.get("k") == "index" and X.strip(n["ch"][0]).get("d") == pd:
+                k = X.const_val(n["ch"][1])
+            elif n.get("k") == "un" and n.get("op") == "*":
+                co = cursor_offset(n["ch"][0], {pd})
+                k = co[1] if co is not None else None
+            if n.get("k") == "assign" and X.strip(n["ch"][0]).get("d") == pd:
+                _UNCOND[key] = best
+                return best         # the parameter is re-pointed: stop
+            if n.get("k") == "un" and n.get("op") in ("++", "--") and X.strip(n["ch"][0]).get("d") == pd:
+                _UNCOND[key] = best
+                return best
+            if k is not None and k >= 0:
+                best = k if best is None else max(best, k)
+        succ = [x for x in b.succ if x is not None]
+        if len(succ) != 1 or b.cond is not None:
+            break
+        b = cfg.blocks.get(succ[0])
+    _UNCOND[key] = best
+    return best
+
+
 def analyse(fn, cursors, entry_safe=0, justified=None, noreturn=("libast_fatal_error",)):
     """cursors: set of decl ids.  Returns [(node, kind, message)] violations and the number of reads/advances checked."""
     cfg = nullness.prepared_cfg(fn, set(noreturn))
@@ -199,6 +245,22 @@ def analyse(fn, cursors, entry_safe=0, justified=None, noreturn=("libast_fatal_e
 
     def _transfer(state, n, blk, report=False):
         k = n.get("k")
+        if k == "call" and report:
+            # a unit-local callee that reads arg[k] before testing anything: the k bytes before it must be known non-NUL here
+            g = fn.unit.functions.get(X.callee_name(n) or "") if getattr(fn, "unit", None) is not None else None
+            if g is not None:
+                for j, a in enumerate(n["ch"][1:]):
+                    co = cursor_offset(a, cursors)
+                    if co is None or get(state, co[0]) is None:
+                        continue
+                    kk = unconditional_read(g, j)
+                    if kk is None:
+                        continue
+                    checked[0] += 1
+                    if co[1] + kk > get(state, co[0]) and not justified(n, state):
+                        viol.append((n, "read", "%s() reads byte %d of the string it is handed (%s) although only %d byte(s) from the "
+                                     "cursor are known to precede the terminator: the read can go past the end of the input" % (
+                                         g.name, kk, X.render(a)[:20], get(state, co[0]))))
         be = reads_in(n)
         if be is not None:
             d, off = be
